@@ -26,7 +26,30 @@ refused call of the copy is enumerated and the DESTINATION is judged like any ot
 database ("cleared first", then filled: after recovery either every key holds what
 the destination held before or nothing, or every key holds the source's value or
 nothing); the source must be unchanged.
+
+KEYS are drawn per run from a pool that covers every kind of character an entry's
+file name can consist of (both non-alphanumeric base64 symbols, padded / unpadded,
+multi-line, NUL and high bytes).  WHAT A REFUSED CALL RAISES is a per-run knob:
+OSError(errno) or an interruption that is not an Exception (KeyboardInterrupt, an
+application's own BaseException) arriving at that call.  LIVING ON: in half of the
+runs the process whose operation failed does not end at once but performs 1-2
+further operations through the same handle (mostly a delete of the failed
+operation's key) and then ends; after the reopen every key must hold the value of
+its last COMPLETED operation (the failed one counts as old-or-new).
+
+FINDINGS (genuine defects these families exposed): (1) b"" as a key replaced the
+database directory by a file - repaired in /repo 5a68187, the empty key is now one
+of the run's keys in 15% of the runs; (2) a database directory with "[" in its name
+was never recovered (glob pattern) - repaired in /repo 5a68187, such names are now
+drawn in 15% of the runs; (3) KNOWN FINDING, not repaired: a set that fails at its
+remove-old/rename step leaves a complete k.rpl behind, and a later completed delete
+of k is undone by the next reopen (the deleted key is back, holding the failed
+set's value).  Its precondition - a delete of the failed key issued on the live
+handle after such a failure - is let in in 5% of the runs only (last draw of the
+run), and every verdict after such a delete is reported under the dedicated clause
+stale-replacement-after-failed-commit with the ordinary clause:witness as witness.
 """
+import base64
 import errno
 import os
 
@@ -39,17 +62,20 @@ ID = "C51"
 ENGINE = "fs"
 LEVEL = "fault_enumeration"
 TECHNIQUE = "deterministic simulation: crash at every interposed filesystem call (+ torn writes, nested crash during recovery; each call also refused with OSError in a process that lives on; copyTo() as one more operation) of seeded DirDBM histories vs in-memory map"
-QUICK_RUNS = 1500
+QUICK_RUNS = 1400
 BATCH = 10
 COMPONENTS = {"real": ["twisted.persisted.dirdbm.DirDBM/Shelf (__init__ recovery, __setitem__, __delitem__, __getitem__, keys, copyTo/clear)", "twisted.persisted.dirdbm.open (flag/mode variants)", "twisted.python.filepath.FilePath",
                        "the real filesystem under a scratch directory (reads)"],
               "stub": ["process/kernel boundary for mutating calls (detsim.fs interposer: crash points, torn writes, user-space buffer loss, one call refused with a drawn errno)"]}
-RULE = ("run = one tape-drawn history of 1..7 set/replace/delete operations over <=4 keys with unique values (0 B..20 KiB) for which every crash point and torn-write "
+RULE = ("run = one tape-drawn history of 1..7 set/replace/delete operations over <=4 keys (drawn from a pool of 10 that covers every class of file-name character the key encoding produces) with unique values (0 B..20 KiB) for which every crash point and torn-write "
         "length {0,1,len/2,len-1} is enumerated, each followed by reopen with a nested crash at every recovery crash point, a final reopen, comparison with the model map "
         "and 1-2 further operations; per run the handles are opened through the constructor or through dirdbm.open(file, flag in {-,c,w} for the writer / {-,r,w,c} "
         "for every reopen, mode in {-,666,600}) (after a read-only reopen the further operations go through one more, writable, reopen); every call of the history is also refused once with OSError (errno drawn per run "
-        "from EIO/EACCES/ENOSPC/EBUSY; the process lives on, the failed operation's own clean-up runs, then reopen and the same old-or-new verdict), in 35% of the runs every "
-        "call of each recovery too; in 30% of the runs the final database is copied with copyTo() to a second database (absent / empty / 1-3 entries under drawn keys) with every "
+        "from EIO/EACCES/ENOSPC/EBUSY) or, in 40% of the runs, interrupted by a non-Exception BaseException (KeyboardInterrupt / an own class) raised in place of the call "
+        "(the process lives on, the failed operation's own clean-up runs, then reopen and the same old-or-new verdict; in 50% of the runs a second pass lets the process live on "
+        "for 1-2 more operations through the same handle - delete/set of the failed key or another - before the reopen, judged by last-completed-operation), in 35% of the runs every "
+        "call of each recovery too; in 15% of the runs one key is b'' and in 15% the directory name holds glob metacharacters; in 5% of the runs (last draw) a delete of the key of a set that "
+        "failed after its value was written is issued on the live handle (known finding; verdicts after it carry the clause stale-replacement-after-failed-commit); in 30% of the runs the final database is copied with copyTo() to a second database (absent / empty / 1-3 entries under drawn keys) with every "
         "crash point, torn length and refused call of the copy enumerated, the destination judged after recovery (nested crashes included) against {clearing under way, filling "
         "under way} and the source against the model; non-trivial = history contains a replace or delete and at least one nested recovery crash was exercised")
 ASSUMPTIONS = ["process crash (not power loss): data handed to write() and completed renames/removes survive; rename() is atomic",
@@ -61,14 +87,50 @@ ASSUMPTIONS = ["process crash (not power loss): data handed to write() and compl
                "refused call: ONE interposed call raises OSError(errno) and has no effect; the process then ends normally after the failed operation (no further operations on "
                "the live handle, which is not judged - the statement speaks about what a reopen yields).  A refused call is at least as benign as a crash at the same call, so "
                "the crash verdict (old-or-new for the operation's key, nothing else touched, no partial value, no temporary after recovery) applies.  EXDEV is not drawn",
+               "interruption: a BaseException that is not an Exception (KeyboardInterrupt, an application's own class) may surface at any interposed call, which then does not "
+               "happen; the operation did not complete.  Same verdict as for a refused call",
+               "living on: after an operation failed (raised), the process may go on using the handle.  Operations that return normally are completed operations in the sense of the "
+               "statement (their key holds exactly their value after the reopen); operations that raise (a delete of a key the handle does not see raises KeyError) are not, and widen "
+               "their key's acceptable set by their own outcome.  Nothing is demanded of what the live handle shows after a failure, and no continuation operation is required to succeed. "
+               "The continuation itself is fault-free and the process then ends (equivalently: crashes between operations)",
+               "b\"\" is a legal key and a directory name with glob metacharacters a legal database name (both drawn in 15% of the runs since the defects they exposed were repaired in /repo 5a68187)",
+               "a delete of the failed key after a set that failed past its last write (at remove-old / rename) is issued in 5% of the runs only (known finding, not repaired: removing the "
+               "temporary on a failed rename can delete the only copy, cf. seed C51-r5a); in the other runs that one continuation operation is skipped.  Verdicts after such a delete carry "
+               "the clause stale-replacement-after-failed-commit",
                "copyTo(path) is documented as clearing an existing destination first and then copying the contents: it performs deletes, then sets, on the destination "
                "database, in an unspecified key order.  So after a crash during the copy the destination is acceptable iff it is a state of the clearing phase (every key: its "
                "previous value or absent) or of the filling phase (every key: the source's value or absent); nothing is demanded about how far the copy got"]
 LEVEL_TEXT = ("Exhaustive enumeration of crash points (incl. torn writes and nested crashes during recovery) for each sampled operation history; histories are sampled by seed.  Likewise every single refused call of the history (and, in a share of runs, of the recovery) and every crash point / refused call of a copyTo() of the result.")
 
-KEYS = [b"a", b"b", b"key/with/slash\nand newline", b"K" * 70]
+# keys: any bytes are legal.  The pool covers every kind of character an entry's file name can be made of (the names are
+# derived from the key bytes by a base64-style encoding): plain letters/digits, padded and unpadded lengths, the two
+# non-alphanumeric symbols of the base64 alphabet (value 62: b"\xfb\xef", b"~~~"; value 63: b"ab?", b"\xff\xff\xfe"), a
+# name longer than one encoded line (70 bytes), NUL and high bytes.  Each run draws its 1-4 keys from the pool.
+KEY_POOL = [b"a", b"b", b"key/with/slash\nand newline", b"K" * 70, b"ab?", b"\xfb\xef", b"abc", b"\xff\xff\xfe", b"\x00", b"~~~"]
 ERRNOS = [errno.EIO, errno.EACCES, errno.ENOSPC, errno.EBUSY]   # (not EXDEV: a rename inside one directory never crosses devices)
 COPY_P = 0.3
+
+
+class Interrupted(BaseException):
+    """an application's own asynchronous interruption (like KeyboardInterrupt: not an Exception)"""
+
+
+# what a refused call raises: OSError(errno), or an interruption that is NOT an Exception (Ctrl-C / a signal handler's
+# exception arriving at that call); the call does not happen
+INTERRUPTS = [KeyboardInterrupt, Interrupted]
+_FAILED = (Exception, KeyboardInterrupt, Interrupted)   # what a failed (not crashed) operation may raise
+LIVE_ON_P = 0.5
+
+# ---- families that exposed genuine defects (see FINDINGS in the docstring)
+EMPTY_KEY_P = 0.15       # FINDING 1 (repaired in /repo 5a68187): b"" as one of the run's keys
+GLOB_DIRNAME_P = 0.15    # FINDING 2 (repaired in /repo 5a68187): a database directory whose name holds glob metacharacters
+# FINDING 3 (KNOWN FINDING, not repaired, listed in known_findings.json): a completed delete of the key of a set that failed AFTER its value was written
+# (at remove-old / rename).  Its precondition is let in only in this share of the runs (last draw of the run; 0 = off);
+# everything judged after such a delete is reported under STALE_CLAUSE, so that the known-finding prefix
+# C51:stale-replacement-after-failed-commit:* covers the family and nothing else
+STALE_DELETE_P = 0.05
+STALE_CLAUSE = "stale-replacement-after-failed-commit"
+GLOB_DIRNAMES = ["db[1]", "d*b", "db?", "[db]"]
 
 
 def run(sim):
@@ -82,6 +144,25 @@ def run(sim):
         writer = _draw_opener(sim, [("ctor", 5), (None, 1), ("c", 1), ("w", 1)], "writer")
         reopener = _draw_opener(sim, [("ctor", 5), (None, 1), ("r", 2), ("w", 1), ("c", 1)], "reopener")
     nkeys = sim.draw_int(1, 4, "nkeys")
+    KEYS = []   # this run's keys (all draws 0: the first nkeys of the pool)
+    for _ in range(nkeys):
+        i = sim.draw_int(0, len(KEY_POOL) - 1, "key_pick")
+        while KEY_POOL[i] in KEYS:
+            i = (i + 1) % len(KEY_POOL)
+        KEYS.append(KEY_POOL[i])
+    if EMPTY_KEY_P and sim.draw_bool(EMPTY_KEY_P, "empty_key"):
+        KEYS[-1] = b""
+    for k in KEYS:
+        # which kinds of file-name characters the run's keys need (standard base64 of the key; independent of the code under test)
+        e = base64.b64encode(k)
+        for ch, name in ((b"/", "key_b64_63"), (b"+", "key_b64_62"), (b"=", "key_padded")):
+            if ch in e:
+                sim.probe(name)
+        if len(k) > 57:
+            sim.probe("key_multi_line")
+    dbname = "db"
+    if GLOB_DIRNAME_P and sim.draw_bool(GLOB_DIRNAME_P, "glob_dirname"):
+        dbname = sim.draw_choice(GLOB_DIRNAMES, "dirname")
     nops = sim.draw_int(1, 7, "nops")
     nchunks = sim.draw_choice([1, 2, 3, 6], "nchunks")
     ops = []
@@ -115,6 +196,18 @@ def run(sim):
     # in some runs also at every call of the recovery
     err = sim.draw_choice(ERRNOS, "errno")
     rec_errno = sim.draw_bool(0.35, "recovery_errno")
+    # ... and what the refused call raises: OSError(errno) or an interruption that is not an Exception
+    exc = None
+    if sim.draw_weighted([("oserror", 3), ("interrupt", 2)], "refusal_kind") == "interrupt":
+        exc = sim.draw_choice(INTERRUPTS, "interrupt_class")
+    # LIVING ON: in some runs the process whose operation failed goes on using the same handle for 1-2 more operations
+    # (on the failed operation's key or another one) before it ends and the database is reopened
+    cont = []
+    if sim.draw_bool(LIVE_ON_P, "live_on"):
+        for _ in range(sim.draw_int(1, 2, "ncont")):
+            what = sim.draw_weighted([("del-same", 3), ("set-same", 1), ("del-other", 1), ("set-other", 1)], "cont")
+            counter += 1
+            cont.append((what, KEYS[sim.draw_int(0, nkeys - 1, "key")], (counter, b"c%d" % counter) if shelf else b"c%d" % counter))
     # copyTo(): in some runs the database the history produced is copied to a second database (absent / empty / holding
     # entries under shared and other keys) with every crash point of the copy enumerated
     copy = None
@@ -122,22 +215,32 @@ def run(sim):
         dest_kind = sim.draw_weighted([("filled", 4), ("absent", 1), ("empty", 1)], "copy_dest")
         prepop = []
         if dest_kind == "filled":
-            for k in sim.draw_perm(KEYS)[:sim.draw_int(1, 3, "copy_dest_keys")]:
+            for k in sim.draw_perm(KEY_POOL[:4] + [k for k in KEYS if k not in KEY_POOL[:4]])[:sim.draw_int(1, 3, "copy_dest_keys")]:
                 counter += 1
                 size = sim.draw_choice([3, 40, 700, 5000], "copy_dest_size")
                 v = (b"p%d:" % counter) + sim.draw_blob(size)[:size]
                 prepop.append((k, (counter, v) if shelf else v))
         copy = (dest_kind, prepop)
-    sim.config = {"errno": err, "recovery_errno": rec_errno, "copy": None if copy is None else [copy[0], [KEYS.index(k) for k, v in copy[1]]], "shelf": shelf, "writer": _opener_name(writer), "reopener": _opener_name(reopener), "nkeys": nkeys, "ops": [(o, KEYS.index(k), None if v is None else (len(v[1]) if shelf else len(v))) for o, k, v in ops], "bufsize": bufsize}
-    sim.event("history", " ".join("%s%d" % (o, KEYS.index(k)) for o, k, v in ops), "shelf" if shelf else "dirdbm", "buf", bufsize, "writer", _opener_name(writer), "reopener", _opener_name(reopener),
-              "errno", err, "rec_errno", int(rec_errno), "copy", "-" if copy is None else copy[0] + "".join("%d" % KEYS.index(k) for k, v in copy[1]))
+    # (last draw; 0 = off) the share of runs in which the precondition of the KNOWN FINDING is let in
+    stale = sim.draw_bool(STALE_DELETE_P, "delete_after_failed_commit")
+    refusal = "oserror" if exc is None else exc.__name__
+    sim.config = {"errno": err, "refusal": refusal, "recovery_errno": rec_errno, "live_on": [[w, _kid(k)] for w, k, v in cont], "keys": [_kid(k) for k in KEYS], "dbname": dbname, "delete_after_failed_commit": stale,
+                  "copy": None if copy is None else [copy[0], [_kid(k) for k, v in copy[1]]], "shelf": shelf, "writer": _opener_name(writer), "reopener": _opener_name(reopener), "nkeys": nkeys, "ops": [(o, _kid(k), None if v is None else (len(v[1]) if shelf else len(v))) for o, k, v in ops], "bufsize": bufsize}
+    sim.event("history", " ".join("%s%d" % (o, _kid(k)) for o, k, v in ops), "shelf" if shelf else "dirdbm", "buf", bufsize, "writer", _opener_name(writer), "reopener", _opener_name(reopener),
+              "errno", err, "refusal", refusal, "rec_errno", int(rec_errno), "live_on", " ".join("%s%d" % (w, _kid(k)) for w, k, v in cont) or "-", "dir", dbname, "stale", int(stale),
+              "copy", "-" if copy is None else copy[0] + "".join("%d" % _kid(k) for k, v in copy[1]))
     F = simfs.FS(sim, bufsize=bufsize)
     bindings = [(filepath, "os", "os"), (filepath, "open", "open"), (dirdbm, "os", "os"), (dirdbm, "_open", "open")]
     try:
         with simfs.Installed(F, bindings):
-            _enumerate(sim, F, shelf, ops, extra, writer, reopener, err, rec_errno, copy)
+            _enumerate(sim, F, shelf, ops, extra, writer, reopener, err, rec_errno, copy, exc, cont, dbname, stale)
     finally:
         F.destroy()
+
+
+def _kid(k):
+    """abstract name of a key: its index in the pool (-1: the empty key)"""
+    return KEY_POOL.index(k) if k in KEY_POOL else -1
 
 
 MODES = [None, 0o666, 0o600]
@@ -183,11 +286,13 @@ def _apply_model(m, op):
         m.pop(k, None)
 
 
-def _enumerate(sim, F, shelf, ops, extra, writer, reopener, err, rec_errno, copy):
+def _enumerate(sim, F, shelf, ops, extra, writer, reopener, err, rec_errno, copy, exc=None, cont=(), dbname="db", stale=False):
     cls, _ = _make_opener(sim, shelf, writer, "writer")           # handles the history is written through
     reopen, read_only = _make_opener(sim, shelf, reopener, "reopen")  # every reopen after a crash
-    d = os.path.join(F.root, "db")
-    d2 = os.path.join(F.root, "db2")   # destination of copyTo()
+    d = os.path.join(F.root, dbname)
+    d2 = os.path.join(F.root, dbname + "2")   # destination of copyTo()
+    refused = "+refused" if exc is None else "+interrupted"      # witness suffix of the refused-call family
+    rkind = "errno" if exc is None else "interrupt"              # fault counter prefix
 
     def wipe():
         F.reboot()
@@ -221,33 +326,55 @@ def _enumerate(sim, F, shelf, ops, extra, writer, reopener, err, rec_errno, copy
             with open(os.path.join(x, n), "wb") as f:
                 f.write(content)
 
+    # KNOWN FINDING family (see FINDINGS in the docstring): while `tainted` is set - the aftermath of a process that issued a
+    # delete of the key of a set that had failed AFTER its value was written - every verdict is reported under the
+    # dedicated clause, with the ordinary clause and witness as its witness
+    tainted = [False]
+
+    def o_check(clause, cond, wit="", detail=""):
+        if tainted[0]:
+            sim.check(STALE_CLAUSE, cond, clause + ":" + wit, detail)
+        else:
+            sim.check(clause, cond, wit, detail)
+
+    def o_fail(clause, wit="", detail=""):
+        if tainted[0]:
+            sim.fail(STALE_CLAUSE, clause + ":" + wit, detail)
+        else:
+            sim.fail(clause, wit, detail)
+
+    def o_guard(clause, wit=""):
+        if tainted[0]:
+            return sim.guard(STALE_CLAUSE, clause + ":" + wit)
+        return sim.guard(clause, wit)
+
     def inspect(db, x, alts, wit, ctx):
         """alts: list of acceptable states, each {key: set of acceptable values (None = absent)} over one key universe;
         the database must be in (at least) one of them"""
         try:
             keys = db.keys()
         except Exception as e:
-            sim.fail("keys-raised", wit, "%s keys() raised %s: %s" % (ctx, type(e).__name__, str(e)[:120]))
-        sim.check("keys-unique", len(keys) == len(set(keys)), wit, "%s keys() has duplicates" % ctx)
+            o_fail("keys-raised", wit, "%s keys() raised %s: %s" % (ctx, type(e).__name__, str(e)[:120]))
+        o_check("keys-unique", len(keys) == len(set(keys)), wit, "%s keys() has duplicates" % ctx)
         stray = sorted(k for k in keys if k not in alts[0])
-        sim.check("no-stray-key", not stray, wit, lambda: "%s stray names visible as keys: %r; files=%r" % (ctx, stray[:3], sorted(os.listdir(x))))
+        o_check("no-stray-key", not stray, wit, lambda: "%s stray names visible as keys: %r; files=%r" % (ctx, stray[:3], sorted(os.listdir(x))))
         got = {}
         for k in sorted(alts[0]):
             if k in keys:
                 try:
                     got[k] = db[k]
                 except Exception as e:
-                    sim.fail("get-raised", wit, "%s db[%r] raised %s though listed in keys()" % (ctx, k[:8], type(e).__name__))
+                    o_fail("get-raised", wit, "%s db[%r] raised %s though listed in keys()" % (ctx, k[:8], type(e).__name__))
             else:
                 got[k] = None
         if not any(all(got[k] in ok for k, ok in alt.items()) for alt in alts):
             # name the first key that fits none / not the best-fitting alternative
             best = max(alts, key=lambda alt: sum(got[k] in ok for k, ok in alt.items()))
             for k, ok in sorted(best.items()):
-                sim.check("value-of-last-completed-op", got[k] in ok, wit,
+                o_check("value-of-last-completed-op", got[k] in ok, wit,
                           lambda: "%s key %r holds %s; acceptable: %s%s" % (ctx, k[:8], _d(got[k]), [_d(y) for y in ok],
                                                                              " (best of %d acceptable states)" % len(alts) if len(alts) > 1 else ""))
-        sim.check("len-matches", len(db) == len(keys), wit, "%s len()=%d keys=%d" % (ctx, len(db), len(keys)))
+        o_check("len-matches", len(db) == len(keys), wit, "%s len()=%d keys=%d" % (ctx, len(db), len(keys)))
 
     counters = {"nested": 0}
 
@@ -259,7 +386,7 @@ def _enumerate(sim, F, shelf, ops, extra, writer, reopener, err, rec_errno, copy
         snap = snapshot(x)
         # recovery, crash-free first (counts the recovery's crash points)
         F.arm()
-        with sim.guard("recovery-raised", wit):
+        with o_guard("recovery-raised", wit):
             db2 = reopen(x)
         rpoints = F.n
         rplan = list(F.log)
@@ -277,7 +404,7 @@ def _enumerate(sim, F, shelf, ops, extra, writer, reopener, err, rec_errno, copy
             counters["nested"] += 1
             F.reboot()
             F.arm()
-            with sim.guard("recovery-raised", wit + "+nested"):
+            with o_guard("recovery-raised", wit + "+nested"):
                 db3 = reopen(x)
             inspect(db3, x, alts, wit + "+nested", ctx + ", nested crash at recovery point %d (%s), after 2nd recovery:" % (r, rplan[r - 1][1]))
             db2 = db3
@@ -285,25 +412,25 @@ def _enumerate(sim, F, shelf, ops, extra, writer, reopener, err, rec_errno, copy
         if rec_errno:
             for r in range(1, rpoints + 1):
                 restore(x, snap)
-                F.arm(errno_at=r, err=err)
+                F.arm(errno_at=r, err=err, exc=exc)
                 try:
                     reopen(x)
                 except simfs.SimCrash:
                     raise
-                except Exception:
+                except _FAILED:
                     sim.probe("recovery_refused_raised")
                 sim.check("errno-fired", F.crashed_op is not None, "", "refused recovery call %d did not fire" % r)
-                sim.fault("recovery_errno@" + rplan[r - 1][1])
+                sim.fault("recovery_%s@%s" % (rkind, rplan[r - 1][1]))
                 F.reboot()
                 F.arm()
-                with sim.guard("recovery-raised", wit + "+recovery-refused"):
+                with o_guard("recovery-raised", wit + "+recovery-" + refused[1:]):
                     db3 = reopen(x)
-                inspect(db3, x, alts, wit + "+recovery-refused", ctx + ", recovery call %d (%s) refused, after 2nd recovery:" % (r, rplan[r - 1][1]))
+                inspect(db3, x, alts, wit + "+recovery-" + refused[1:], ctx + ", recovery call %d (%s) refused (%s), after 2nd recovery:" % (r, rplan[r - 1][1], rkind))
                 db2 = db3
         # life goes on: further operations on the recovered database behave like a map
         if read_only:
             # nothing is written through a handle that was opened for reading only
-            with sim.guard("recovery-raised", wit):
+            with o_guard("recovery-raised", wit):
                 db2 = cls(x)
             inspect(db2, x, alts, wit, ctx + ", writable reopen after the read-only one:")
         cur = {}
@@ -312,16 +439,16 @@ def _enumerate(sim, F, shelf, ops, extra, writer, reopener, err, rec_errno, copy
             if v is not None:
                 cur[k] = v
         for op in extra:
-            with sim.guard("post-recovery-op-raised", wit):
+            with o_guard("post-recovery-op-raised", wit):
                 apply_real(db2, op)
             _apply_model(cur, op)
         F.reboot()
-        with sim.guard("recovery-raised", wit):
+        with o_guard("recovery-raised", wit):
             db4 = reopen(x)
         inspect(db4, x, [{k: {cur.get(k)} for k in alts[0]}], wit, ctx + ", after further ops and reopen:")
         leftovers = [y for y in sorted(os.listdir(x)) if y.endswith(".new") or y.endswith(".rpl")]
         # (a reopen for reading only promises what is visible as data, not what is on disk)
-        sim.check("no-temp-after-recovery", read_only or not leftovers, wit, "%s temporaries left after recovery: %r" % (ctx, leftovers))
+        o_check("no-temp-after-recovery", read_only or not leftovers, wit, "%s temporaries left after recovery: %r" % (ctx, leftovers))
         sim.step(1000000)
 
     def torn_lengths(opname, size):
@@ -329,7 +456,7 @@ def _enumerate(sim, F, shelf, ops, extra, writer, reopener, err, rec_errno, copy
             return [t for t in sorted(set([0, 1, size // 2, size - 1])) if 0 <= t < size]
         return [0]
 
-    universe = sorted(set(k for _, k, _ in ops) | set(k for _, k, _ in extra))
+    universe = sorted(set(k for _, k, _ in ops) | set(k for _, k, _ in extra) | set(k for _, k, _ in cont))
 
     # crash-free run: count crash points, remember which op each belongs to, check the model after every op
     wipe()
@@ -381,33 +508,74 @@ def _enumerate(sim, F, shelf, ops, extra, writer, reopener, err, rec_errno, copy
             aftermath(d, [allowed], wit, "crash at %d/%d (%s %s torn=%d) in op %d" % (n - base, npoints, opname, rel, torn, j))
         # the same call is REFUSED instead (OSError): the process lives on - whatever clean-up the operation does on
         # failure runs - and then ends; the operation did not complete, so its key holds old or new after the reopen
-        wipe()
-        F.arm()
-        db = cls(d)
-        F.arm(errno_at=n - base, err=err)
-        raised = None
-        for jj, op in enumerate(ops[:j + 1]):
-            try:
-                apply_real(db, op)
-            except simfs.SimCrash:
-                raise
-            except Exception as e:
-                raised = jj
-                break
-        sim.check("errno-fired", F.crashed_op is not None and raised in (None, j), "", "refused call %d did not fire in op %d (raised in %r)" % (n, j, raised))
-        sim.fault("errno@" + opname)
+        def failing_process():
+            """a fresh process performs the history up to op j, in which call n is refused -> the live handle"""
+            wipe()
+            F.arm()
+            db = cls(d)
+            F.arm(errno_at=n - base, err=err, exc=exc)
+            raised = None
+            for jj, op in enumerate(ops[:j + 1]):
+                try:
+                    apply_real(db, op)
+                except simfs.SimCrash:
+                    raise
+                except _FAILED:
+                    raised = jj
+                    break
+            sim.check("errno-fired", F.crashed_op is not None and raised in (None, j), "", "refused call %d did not fire in op %d (raised in %r)" % (n, j, raised))
+            return db, raised
+
+        db, raised = failing_process()
+        sim.fault("%s@%s" % (rkind, opname))
         if raised is not None:
             sim.probe("refused_op_raised")
-        aftermath(d, [allowed], wit + "+refused", "call %d/%d (%s %s) refused with errno %d in op %d" % (n - base, npoints, opname, rel, err, j))
+        rctx = "call %d/%d (%s %s) refused with %s in op %d" % (n - base, npoints, opname, rel, "errno %d" % err if exc is None else exc.__name__, j)
+        aftermath(d, [allowed], wit + refused, rctx)
+        if cont:
+            # LIVING ON: the process whose operation failed keeps using the handle.  The failed operation's key holds old or
+            # new; every further operation that completes decides its key; one that raises (a delete of a key that is not
+            # there raises KeyError) did not complete and leaves old-or-new for its key.  Then the process ends.
+            db, raised = failing_process()
+            sim.probe("lived_on")
+            acc = {k: set(ok) for k, ok in allowed.items()}
+            taint = False
+            # the failed set got as far as handing its whole value to the kernel (the refused call is one of its later ones)
+            committed = ops[j][0] == "set" and not (opname.startswith("open") or opname == "write")
+            for what, other, v in cont:
+                k = ik if what.endswith("-same") else other
+                o = what[:3]
+                if o == "del" and k == ik and committed:
+                    if not stale:
+                        sim.probe("cont_delete_after_failed_commit_avoided")   # FINDING 3: precondition kept out of this run
+                        continue
+                    sim.probe("cont_delete_after_failed_commit_issued")
+                    taint = True
+                try:
+                    apply_real(db, (o, k, v))
+                except simfs.SimCrash:
+                    raise
+                except _FAILED:
+                    # not completed: old-or-new
+                    acc[k] = acc[k] | {v if o == "set" else None}
+                    sim.probe("cont_%s_raised" % o)
+                else:
+                    acc[k] = {v if o == "set" else None}
+                    sim.probe("cont_%s_completed%s" % (o, "_same_key" if k == ik else ""))
+            tainted[0] = taint
+            try:
+                aftermath(d, [acc], wit + refused + "+lived-on", rctx + ", then " + " ".join("%s%d" % (w[:3], _kid(ik if w.endswith("-same") else kk)) for w, kk, vv in cont))
+            finally:
+                tainted[0] = False
 
     if copy is not None:
-        _copy_campaign(sim, F, cls, reopen, d, d2, src_snap, model, universe, copy, err, snapshot, restore, inspect, aftermath, torn_lengths, apply_real)
+        _copy_campaign(sim, F, cls, reopen, d, d2, src_snap, model, universe, copy, err, snapshot, restore, inspect, aftermath, torn_lengths, apply_real, exc)
     kinds = set((o, k in [kk for oo, kk, vv in ops[:i]]) for i, (o, k, v) in enumerate(ops))
     sim.nontrivial = counters["nested"] > 0 and any(o == "del" or seen for o, seen in kinds)
     sim.state((shelf, len(ops), npoints > 8, copy is not None))
 
 
-def _copy_campaign(sim, F, cls, reopen, d, d2, src_snap, model, universe, copy, err, snapshot, restore, inspect, aftermath, torn_lengths, apply_real):
+def _copy_campaign(sim, F, cls, reopen, d, d2, src_snap, model, universe, copy, err, snapshot, restore, inspect, aftermath, torn_lengths, apply_real, exc=None):
     """copyTo(path) as one more operation: documented as "copy the contents of this dirdbm to the dirdbm at path; if a
     dirdbm exists at the destination path, it is cleared first" - i.e. a series of deletes and then of sets performed on
     the destination database, which is a database like any other: after a crash (or a refused call) at any point of the
@@ -468,16 +636,17 @@ def _copy_campaign(sim, F, cls, reopen, d, d2, src_snap, model, universe, copy, 
             inspect(again, d, src_exact, wit, ctx + ", the SOURCE reopened:")
             aftermath(d2, [clearing, filling], wit, ctx + ", destination")
         src = fresh()
-        F.arm(errno_at=n - base, err=err)
+        F.arm(errno_at=n - base, err=err, exc=exc)
         try:
             src.copyTo(d2)
         except simfs.SimCrash:
             raise
-        except Exception:
+        except _FAILED:
             sim.probe("refused_copy_raised")
         sim.check("errno-fired", F.crashed_op is not None, "", "refused call %d of the copy did not fire" % n)
-        sim.fault("copy_errno@" + opname)
-        aftermath(d2, [clearing, filling], wit + "+refused", "call %d/%d (%s %s) of copyTo refused with errno %d, destination" % (n - base, len(plan), opname, rel, err))
+        sim.fault("copy_%s@%s" % ("errno" if exc is None else "interrupt", opname))
+        aftermath(d2, [clearing, filling], wit + ("+refused" if exc is None else "+interrupted"),
+                  "call %d/%d (%s %s) of copyTo refused with %s, destination" % (n - base, len(plan), opname, rel, "errno %d" % err if exc is None else exc.__name__))
 
 
 def _d(x):
@@ -489,6 +658,12 @@ def _d(x):
 
 
 MUTANTS = [
+    "_encode without the empty-key name (pre-5a68187) -> caught quick (keys-raised:crash-free, recovery-raised:...:FileExistsError) via EMPTY_KEY_P",
+    "recovery globbing the unescaped directory name (pre-5a68187) -> caught quick (keys-raised:set@write|rename, get-raised:set@write) via GLOB_DIRNAME_P",
+    "seeded C51-r6a: recovery lists the directory and matches temporaries with a regex lacking '-' -> caught quick (keys-raised:set@rename, keys-raised:set@write) by the key pool (keys whose file name holds the base64 symbol 63)",
+    "seeded C51-r6b: __setitem__ cleans up only on Exception -> caught quick (value-of-last-completed-op / get-raised :replace@write+interrupted+lived-on) by non-Exception interruptions + living on (interrupted replace, completed delete, reopen resurrects the key with a partial value)",
+    "recovery regex lacking '+' ([\\w=-]+) -> caught quick (keys-raised:set@write) via keys b'\\xfb\\xef' / b'~~~'",
+    "__setitem__: handler 'except OSError' instead of BaseException -> caught quick (value-of-last-completed-op:replace@write+interrupted+lived-on)",
     "seeded C51-r5a: __setitem__'s handler covers remove-old and rename too and deletes the temporary -> caught quick (value-of-last-completed-op:replace@rename+refused) by the refused-call family; invisible to crashes (a dead process runs no handler)",
     "seeded C51-r5b: copyTo() copies entry files straight to their final names -> caught quick (value-of-last-completed-op:copy@write, get-raised:copy@write for Shelf) by the copy family",
     "recovery: a refused rename of a lone .rpl is answered by removing it (try: os.rename(f, old) except OSError: os.remove(f)) -> caught quick (value-of-last-completed-op:replace@rename+recovery-refused)",
